@@ -382,6 +382,12 @@ func (p *parser) validateBinaryType(binaryExp *BinaryExpression) bool {
 
 	leftType := binaryExp.Left.Type()
 	rightType := binaryExp.Right.Type()
+	if leftType == NONE_TYPE || rightType == NONE_TYPE {
+		// e.g. (f) == (f) with a procedure f: a call without a return value is not an operand
+		msg := fmt.Sprintf("%q takes values, found %s, %s", op, leftType, rightType)
+		p.appendErrorForToken(msg, tok)
+		return false
+	}
 	if !(leftType.matches(rightType) || (leftType.Name == ARRAY && op == OP_ASTERISK)) {
 		msg := fmt.Sprintf("mismatched type for %s: %s, %s", op, leftType, rightType)
 		p.appendErrorForToken(msg, tok)
